@@ -174,7 +174,7 @@ func famA(L int) {
 var subst = []byte{0x00, 0x01, 0x0d, 0x7f, 0x80, 0xff}
 
 // mutants calls f for every systematic mutant of doc.
-func mutants(doc []byte, network bool, f func(m []byte, how string)) {
+func mutants(doc []byte, network bool, withSubst bool, f func(m []byte, how string)) {
 	_, _, _, sites, err := refnbt.ParseSites(doc, network)
 	if err != nil {
 		engine.HarnessError("generated document does not parse: %v", err)
@@ -208,7 +208,7 @@ func mutants(doc []byte, network bool, f func(m []byte, how string)) {
 	m := make([]byte, len(doc))
 	// substitutions
 	for p := range doc {
-		if !pos[p] {
+		if !withSubst || !pos[p] {
 			continue
 		}
 		for _, s := range subst {
@@ -285,7 +285,9 @@ func famB(nFull, nRed int, deadline time.Time) {
 					rep.Sample(map[string]any{"family": "B", "doc": tree.String(), "network": network})
 				}
 				n := int64(0)
-				mutants(doc, network, func(m []byte, how string) {
+				// quick: blind byte substitutions only for the small (full-alphabet) documents;
+				// truncations and structural overwrites always
+				mutants(doc, network, rep.Thorough() || g.name == "full", func(m []byte, how string) {
 					n++
 					mm := append([]byte(nil), m...)
 					runAll(slot, mm, "famB:"+how)
@@ -301,6 +303,57 @@ func famB(nFull, nRed int, deadline time.Time) {
 	rep.Count("famB_mutants", muts)
 	rep.NonTrivial(muts)
 	rep.AddStates(muts)
+}
+
+// famC: integer-overflow probes. Declared array/list lengths near 2^28..2^31 are written into every
+// length field of every document and run ONLY on the entry points that skip or copy a value
+// without allocating by its declared length (rawRead, RawMessage, the binary->text converter), so
+// an honest implementation fails at the first missing element. Every such input is a strict
+// prefix of a document and must be rejected.
+var overflowLens = []int64{0x10000000, 0x1fffffff, 0x20000000, 0x20000001, 0x3fffffff, 0x40000000, 0x40000001, 0x7fffffff}
+
+var nonAllocating = map[string]bool{"struct-skip-all": true, "raw": true, "raw-string": true, "stringified": true, "map-raw": true}
+
+func famC(n int) {
+	var docs, cases int64
+	var slotCtr int32 = -1
+	engine.Explore(engine.ExploreOpts{Workers: engine.Workers(), NewCtx: func() any { return int(atomic.AddInt32(&slotCtr, 1)) }}, func(c *engine.Chooser) {
+		slot := c.Ctx.(int)
+		network := c.Pick(2) == 1
+		tree := refnbt.Gen(c, n, refnbt.Reduced())
+		name := ""
+		if !network {
+			name = "r"
+		}
+		doc := refnbt.Append(nil, name, tree, network)
+		_, _, _, sites, err := refnbt.ParseSites(doc, network)
+		if err != nil {
+			engine.HarnessError("generated document does not parse: %v", err)
+		}
+		atomic.AddInt64(&docs, 1)
+		for _, st := range sites {
+			if st.Width != 4 {
+				continue
+			}
+			for _, v := range overflowLens {
+				m := append([]byte(nil), doc...)
+				m[st.Off], m[st.Off+1], m[st.Off+2], m[st.Off+3] = byte(v>>24), byte(v>>16), byte(v>>8), byte(v)
+				// the document now declares more elements than bytes follow: a strict prefix
+				ver := verdict{must: true, reason: "strict-prefix@huge-" + st.Kind}
+				for ei, e := range entries {
+					if nonAllocating[e.Name] {
+						runOne(slot, m, ei, network, ver, "famC:overflow-probe")
+						atomic.AddInt64(&cases, 1)
+					}
+				}
+			}
+		}
+	})
+	rep.Eval(cases)
+	rep.NonTrivial(cases)
+	rep.AddStates(cases)
+	rep.Count("famC_documents", docs)
+	rep.Count("famC_overflow_probes", cases)
 }
 
 func main() {
@@ -326,6 +379,7 @@ func main() {
 	}
 	famA(L)
 	famB(nFull, nRed, deadline)
+	famC(3)
 	rep.Extra("L", L)
 	rep.Extra("nodes_full_alphabet", nFull)
 	rep.Extra("nodes_reduced_alphabet", nRed)
